@@ -311,7 +311,7 @@ fn gen_crash_op(rng: &mut StdRng, u: &Universe, stored: &[(u64, u64)], stored_ha
             Op::Insert(_) => return op,
             Op::Remove(h) | Op::Mark(h) | Op::Meta(h, _) => *h,
         };
-        if in_store(h) || rng.gen_bool(0.3) {
+        if in_store(h) || rng.gen_bool(0.45) {
             return op;
         }
         if let Some(r) = stored.choose(rng) {
@@ -486,12 +486,29 @@ async fn one_history(seed: u64, run: u64, ops: u64, len: u64, subsets: u64, exha
         // Operations that failed earlier are tried again once their height is stored (an acknowledged
         // success must survive whatever failed before it on the same store handle).
         let in_store = |h: u64| stored.iter().any(|(a, b)| *a <= h && h <= *b);
+        let mut retried: Option<Op> = None;
         let retry = failed.iter().position(|o| matches!(o, Op::Remove(h) | Op::Mark(h) | Op::Meta(h, _) if in_store(*h)));
-        let op = match retry {
-            Some(k) if rng.gen_bool(0.5) => {
-                sum.add("retried_failed_ops", 1);
+        // a remembered failure whose height is not stored yet: an insert that brings it into the store
+        failed.retain(|o| matches!(o, Op::Remove(h) | Op::Mark(h) | Op::Meta(h, _) if *h >= 1 && *h <= u.len));
+        let fill = failed.iter().find_map(|o| match o {
+            Op::Remove(h) | Op::Mark(h) | Op::Meta(h, _) if !in_store(*h) => {
+                let below = stored.iter().filter(|r| r.1 < *h).map(|r| r.1 + 1).max();
+                let above = stored.iter().filter(|r| r.0 > *h).map(|r| r.0 - 1).min();
+                let (lo, hi) = match (below, above) {
+                    (Some(lo), _) => (lo, *h),          // extend the range below up to h
+                    (None, Some(hi)) => (*h, hi),       // extend the range above down to h
+                    (None, None) => (*h, (*h + 2).min(u.len)),
+                };
+                (hi - lo < 40).then(|| Op::Insert(u.a[(lo - 1) as usize..hi as usize].to_vec()))
+            }
+            _ => None,
+        });
+        let op = match (retry, fill) {
+            (Some(k), _) if rng.gen_bool(0.9) => {
+                retried = Some(failed[k].clone());
                 failed.remove(k)
             }
+            (None, Some(ins)) if rng.gen_bool(0.6) => ins,
             _ if big => gen_big_op(&mut rng, &u, &stored, &stored_hashes),
             _ => gen_crash_op(&mut rng, &u, &stored, &stored_hashes),
         };
@@ -522,6 +539,12 @@ async fn one_history(seed: u64, run: u64, ops: u64, len: u64, subsets: u64, exha
             }
         };
         let je = be.pos();
+        if let Some(o) = &retried {
+            sum.add("retried_failed_ops", 1);
+            if r == R_OK {
+                sum.add(match o { Op::Remove(_) => "failed_then_ok_remove", Op::Mark(_) => "failed_then_ok_mark", _ => "failed_then_ok_meta" }, 1);
+            }
+        }
         if r != R_OK {
             sum.add("failed_ops", 1);
             if !matches!(op, Op::Insert(_)) && failed.len() < 8 {
